@@ -232,13 +232,18 @@ func runServer(eng *engine.EngineFacade, config Config) {
 	fmt.Printf("Kevo server started on %s\n", config.ListenAddr)
 
 	// Set up signal handling for graceful shutdown
-	setupGracefulShutdown(server, eng)
+	shutdownDone := setupGracefulShutdown(server, eng)
 
 	// Start serving (blocking)
 	if err := server.Serve(); err != nil {
 		fmt.Fprintf(os.Stderr, "Error serving: %v\n", err)
 		os.Exit(1)
 	}
+
+	// Serve returns once the shutdown has stopped the gRPC server. Let the shutdown
+	// finish, then return: main() closes the database, which writes out what the
+	// WAL still buffers. (Exiting from the signal handler used to skip that.)
+	<-shutdownDone
 }
 
 // setupDaemonMode configures process to run as a daemon
@@ -275,9 +280,10 @@ func setupDaemonMode() {
 }
 
 // setupGracefulShutdown configures graceful shutdown on signals
-func setupGracefulShutdown(server *Server, eng *engine.EngineFacade) {
+func setupGracefulShutdown(server *Server, eng *engine.EngineFacade) <-chan struct{} {
 	sigChan := make(chan os.Signal, 1)
 	signal.Notify(sigChan, syscall.SIGINT, syscall.SIGTERM)
+	done := make(chan struct{})
 
 	go func() {
 		sig := <-sigChan
@@ -292,11 +298,14 @@ func setupGracefulShutdown(server *Server, eng *engine.EngineFacade) {
 			fmt.Fprintf(os.Stderr, "Error shutting down server: %v\n", err)
 		}
 
-		// The engine will be closed by the defer in main()
+		// The engine is closed by the defer in main(), which runs when runServer
+		// returns
 
 		fmt.Println("Shutdown complete")
-		os.Exit(0)
+		close(done)
 	}()
+
+	return done
 }
 
 // runInteractive starts the interactive CLI mode
